@@ -298,6 +298,15 @@ def successor_probe(i):
         bad.append("copy of the successor is unequal to it")
     if not (rb(want) == back):
         bad.append("equal states read back unequal")
+    # a state is a value: what the operator that produced it does afterwards does not change it
+    text, clone = s1.serialize(), s1.copy()
+    for again in (s0, s1, clone):
+        try:
+            op.apply(again, allow_inapplicable_actions=True)
+        except Exception:  # noqa
+            pass
+    if s1.serialize() != text or not (s1 == clone and clone == s1) or not (rb(s1) == back):
+        bad.append(f"the successor changed when its operator was applied again: {text.strip()} -> {s1.serialize().strip()}")
     return "; ".join(bad) or None
 
 
